@@ -23,6 +23,7 @@ import (
 	"sort"
 	"strconv"
 	"strings"
+	"sync"
 	"time"
 
 	"github.com/awslabs/ar-go-tools/analysis/maypanic"
@@ -651,8 +652,22 @@ func checkProgram(rep *lib.Report, name, dir, module string, files map[string]st
 			siteAt[fmt.Sprintf("%s:%d", s.file, s.line)] = s
 		}
 	}
+	crashes := make([]crash, len(nativeArgs))
+	{
+		var wg sync.WaitGroup
+		sem := make(chan struct{}, 6)
+		for ai, arg := range nativeArgs {
+			wg.Add(1)
+			sem <- struct{}{}
+			go func(ai int, arg string) {
+				defer func() { <-sem; wg.Done() }()
+				crashes[ai] = runNative(bin, dir, arg)
+			}(ai, arg)
+		}
+		wg.Wait()
+	}
 	for ai, arg := range nativeArgs {
-		c := runNative(bin, dir, arg)
+		c := crashes[ai]
 		var h *hostInfo
 		if ai < len(hosts) {
 			h = &hosts[ai]
